@@ -175,7 +175,10 @@ def parse_graphic_sequence(
                 current_set.append(items[idx])
             left_in_set -= 1
             if left_in_set <= 0:
-                output.append(AnsiSetting(current_set))
+                setting = AnsiSetting(current_set)
+                # A complete multi-code set may still carry out-of-range arguments
+                if add_erroneous or len(current_set) == 1 or setting.parsable:
+                    output.append(setting)
                 current_set = []
         elif add_erroneous:
             output.append(AnsiSetting(value))
